@@ -36,6 +36,8 @@ pub enum Op {
 	/// (directed histories only) a small send that requires no confirmations and takes every eligible output,
 	/// unconfirmed change of a pending transaction included
 	InitZeroConf { slot: usize },
+	/// (directed histories only) a late-locked send: inputs are chosen and reserved at finalization
+	InitLate { slot: usize },
 }
 
 #[derive(Clone, Debug, Serialize, Deserialize, Default)]
@@ -202,6 +204,17 @@ impl Model for M {
 				let mut args = default_args(5 * G);
 				args.minimum_confirmations = 0;
 				args.selection_strategy_is_use_all = true;
+				match w.w("A").init_send(args) {
+					Ok(s1) => {
+						sl[*slot] = Some(Slot { kind: "send".into(), id: s1.id.to_string(), s1: Some(slate_to_json(&s1)), ..Default::default() });
+						out.label = "ok".into();
+					}
+					Err(e) => out.label = err_label(&e),
+				}
+			}
+			Op::InitLate { slot } => {
+				let mut args = default_args(AMOUNT);
+				args.late_lock = Some(true);
 				match w.w("A").init_send(args) {
 					Ok(s1) => {
 						sl[*slot] = Some(Slot { kind: "send".into(), id: s1.id.to_string(), s1: Some(slate_to_json(&s1)), ..Default::default() });
@@ -385,11 +398,47 @@ impl Model for M {
 			// a refused step must not change the books (a refresh implied by the step may)
 			match op {
 				Op::Lock { .. } | Op::Receive { .. } | Op::Finalize { .. } => {
+					// the statement speaks of log entries, outputs and reservations: the stored contexts are left
+					// out of this comparison (a late-locked finalize that is refused at its reserve step has
+					// already written the inputs it chose into the context; nothing is reserved by that)
+					let strip = |v: &Value| {
+						let mut v = v.clone();
+						for wn in ["A", "B"].iter() {
+							if let Some(o) = v[*wn].as_object_mut() {
+								o.remove("contexts");
+							}
+							// (a key index that moved on reserves nothing either)
+							if let Some(accts) = v[*wn]["accounts"].as_array_mut() {
+								for a in accts.iter_mut() {
+									a["child_index"] = json!(0);
+								}
+							}
+						}
+						v
+					};
 					let proj_after = self.project(w);
-					if proj_after != proj_before {
+					if strip(&proj_after) != strip(&proj_before) {
 						out.problem(
 							format!("refused-step-changed-state/{}", op_kind(op)),
-							format!("{:?} returned {} but changed the wallet state", op, out.label),
+							format!("{:?} returned {} but changed the wallet state ({})", op, out.label, {
+								let (a, b) = (strip(&proj_before), strip(&proj_after));
+								let mut d = vec![];
+								for wn in ["A", "B"].iter() {
+									if let (Some(x), Some(y)) = (a[*wn].as_object(), b[*wn].as_object()) {
+										for (k, v) in x.iter() {
+											if y.get(k) != Some(v) {
+												d.push(format!("{}.{}", wn, k));
+											}
+										}
+									}
+								}
+								for k in ["slots", "height", "pool"].iter() {
+									if a[*k] != b[*k] {
+										d.push(k.to_string());
+									}
+								}
+								d.join(", ")
+							}),
 						);
 					}
 				}
@@ -416,9 +465,13 @@ impl Model for M {
 			}
 			let mut inputs = BTreeSet::new();
 			if let Some(id) = t.tx_slate_id {
-				if let Ok(c) = a.get_context(&id) {
-					for i in c.input_ids.iter() {
-						inputs.insert(i.0.to_bip_32_string());
+				// inputs named by the stored context count as reserved only when the entry records a
+				// reservation (a late-locked slate handed to the reserve step gets an entry without inputs)
+				if t.num_inputs > 0 {
+					if let Ok(c) = a.get_context(&id) {
+						for i in c.input_ids.iter() {
+							inputs.insert(i.0.to_bip_32_string());
+						}
 					}
 				}
 				if let Ok(Some(tx)) = catch(|| a.stored_tx(&id)).unwrap_or(Ok(None)) {
@@ -538,6 +591,7 @@ fn op_kind(op: &Op) -> &'static str {
 		Op::InitExact { .. } => "init-exact",
 		Op::CancelNamed { .. } => "cancel-named",
 		Op::InitZeroConf { .. } => "init-zero-conf",
+		Op::InitLate { .. } => "init-late",
 	}
 }
 
@@ -611,6 +665,14 @@ pub fn run(_args: &[String]) -> i32 {
 			vec![Op::Init { slot: 0, use_all: false }, Op::Lock { slot: 0 }, Op::Receive { slot: 0 }, Op::Finalize { slot: 0 }, Op::Post { slot: 0 }, Op::InitZeroConf { slot: 1 }, Op::Lock { slot: 1 }, Op::InitZeroConf { slot: 2 }, Op::Lock { slot: 2 }],
 			vec![Op::Init { slot: 0, use_all: false }, Op::Lock { slot: 0 }, Op::InitZeroConf { slot: 1 }, Op::InitZeroConf { slot: 2 }, Op::Lock { slot: 1 }, Op::Lock { slot: 2 }],
 		];
+		// late-locked sends: the reservation happens inside finalize; an explicit reserve step before or after,
+		// and a repeated finalize, must not add a second entry or reservation
+		let mut zero = zero;
+		zero.push(vec![Op::InitLate { slot: 0 }, Op::Receive { slot: 0 }, Op::Finalize { slot: 0 }]);
+		zero.push(vec![Op::InitLate { slot: 0 }, Op::Lock { slot: 0 }, Op::Receive { slot: 0 }, Op::Finalize { slot: 0 }]);
+		zero.push(vec![Op::InitLate { slot: 0 }, Op::Receive { slot: 0 }, Op::Lock { slot: 0 }, Op::Finalize { slot: 0 }]);
+		zero.push(vec![Op::InitLate { slot: 0 }, Op::Receive { slot: 0 }, Op::Finalize { slot: 0 }, Op::Lock { slot: 0 }]);
+		zero.push(vec![Op::InitLate { slot: 0 }, Op::Receive { slot: 0 }, Op::Finalize { slot: 0 }, Op::Finalize { slot: 0 }]);
 		let root = scratch_root();
 		let zres = par_map(&zero, workers(), |i, p| run_path(&m3, &format!("{}/c03-z{}", root, i), p));
 		for (p, r) in zero.iter().zip(zres.into_iter()) {
